@@ -280,7 +280,7 @@ func (oc *OptsCache) Intact() error {
 		return nil
 	}
 	for spec, o := range oc.m {
-		if want := spec.JP(); *o != *want {
+		if want := spec.JP(); !lib.SameOptions(o, want) {
 			return fmt.Errorf("an ApplyOptions value passed to Apply was modified: now %+v, was %+v", *o, *want)
 		}
 	}
